@@ -40,15 +40,31 @@ THEOREMS = {
 }
 
 
+WRITERS = os.path.join(VERIF, "coq", "writers")
+E2E = os.path.join(VERIF, "coq", "e2e")
+E2E_THEOREMS = ["C01_end_to_end_encoder", "C01_end_to_end_sample_writer", "C01_written_metadata_is_read", "C01_end_to_end_nonvacuous"]
+E2E_REQUIRES = ["FlacWriters.Meta", "FlacWriters.Params", "FlacWriters.Finalize", "FlacWriters.Writers", "FlacE2E.Bridge", "FlacE2E.E2E", "FlacE2E.Props_E2E"]
+
+
 def proof_stage(chk, pid, theorems=None, requires=None):
     thms = theorems or THEOREMS.get(pid) or BASE_THEOREMS
     reqs = ["Coq.Lists.List", "Coq.NArith.NArith", "Coq.ZArith.ZArith", "FlacBase.Bits", "FlacBase.Crc", "FlacBase.Pins"] + CODEC_REQUIRES + (requires or [])
+    gen = ["python3 %s/tools/gen_crc.py %s %s/GenCrc.v" % (VERIF, vlib.REPO, BASE),
+           "python3 %s/tools/gen_stream.py %s %s/GenStream.v" % (VERIF, vlib.REPO, CODEC)]
+    if pid == "C01":
+        # C01 also claims the end-to-end composition (coq/e2e): writers' Encoder x codec's block encoder x codec's stream decoder
+        gen.append("python3 %s/tools/gen_writers.py %s %s/GenWriters.v" % (VERIF, vlib.REPO, WRITERS))
+        return vlib.proof_stage(
+            chk, coq_dirs=[BASE, CODEC, WRITERS, E2E], build_dir=E2E,
+            qflags="-Q ../base FlacBase -Q ../codec FlacCodec -Q ../writers FlacWriters -Q . FlacE2E",
+            requires=reqs + E2E_REQUIRES, theorems=E2E_THEOREMS + thms,
+            obligation_files=[(BASE, ["Res.v", "Bits.v", "Crc.v", "Pins.v"]), (CODEC, coq_files()), (E2E, ["Bridge.v", "E2E.v", "Props_E2E.v"])],
+            gen_steps=gen)
     return vlib.proof_stage(
         chk, coq_dirs=[BASE, CODEC], build_dir=CODEC, qflags="-Q ../base FlacBase -Q . FlacCodec",
         requires=reqs, theorems=thms,
         obligation_files=[(BASE, ["Res.v", "Bits.v", "Crc.v", "Pins.v"]), (CODEC, coq_files())],
-        gen_steps=["python3 %s/tools/gen_crc.py %s %s/GenCrc.v" % (VERIF, vlib.REPO, BASE),
-                   "python3 %s/tools/gen_stream.py %s %s/GenStream.v" % (VERIF, vlib.REPO, CODEC)])
+        gen_steps=gen)
 
 
 def build_driver(chk):
